@@ -331,6 +331,8 @@ Proof.
     exists [WD (mD arg)]. cbn -[apply_writes].
     split; [reflexivity|]. split; [intros x [<-|[]]; reflexivity|].
     destruct base; unfold apply_writes; simpl. now rewrite Ef, Ee.
+  - (* acknowledge only *)
+    exists []. simpl. split; [reflexivity|]. split; [intros x []|reflexivity].
 Qed.
 
 (* if every field of the argument the handler saw is among the candidates, the reply is [explained] *)
